@@ -130,6 +130,38 @@ fn gen_cfg(rng: &mut Rng) -> Cfg {
     Cfg { virtual_tokens, bare_right, lex, chardef, unk, feature_def, rewrite_def, corpus, user, bigrams, k }
 }
 
+
+/// Pinned configurations that run before the generated ones (minimised failures kept as a corpus):
+/// the known-finding class K7 and the configuration of the defect repaired by 8f2bdbc.
+fn pinned_cfgs() -> Vec<(Cfg, u64)> {
+    let chardef = "DEFAULT 0 1 0\nALPHA 1 1 0\nKANJI 0 0 2\n0x0061..0x007A ALPHA\n0x4E00..0x9FFF KANJI\n".to_string();
+    let uni = "UNIGRAM U0:%F[0]\nUNIGRAM U1:%F[0],%F?[1]\nUNIGRAM U2:%t\nUNIGRAM U3:%F?[3]\n";
+    vec![
+        (Cfg {
+            virtual_tokens: false, bare_right: false,
+            lex: "ab,0,0,0,助詞,一般\nbc,0,0,0,名詞,\"x,y\",*\na,0,0,0,助詞,*,b2,*\nba,0,0,0,動詞,固有,基,*\n\"a,b\",0,0,0,名詞,一般,b2\n犬,0,0,0,名詞,\"x,y\",b2\nb,0,0,0,名詞,\"x,y\"\nb,0,0,0,名詞,固有,基,*\nc,0,0,0,助詞,\"x,y\"\n".into(),
+            chardef: chardef.clone(),
+            unk: "DEFAULT,0,0,0,助詞,固有,b2\nDEFAULT,0,0,0,名詞,一般,基\nALPHA,0,0,0,名詞,*,基\nKANJI,0,0,0,名詞,*\n".into(),
+            feature_def: format!("{}BIGRAM B0:%L?[3]/r0:%R?[3]\n", uni),
+            rewrite_def: "[unigram rewrite]\n[left rewrite]\n*,固有 $1,$2,*,*\n名詞,一般,*,* $1,*,$3,*\n[right rewrite]\n".into(),
+            corpus: "ba\t動詞,固有,基,*\nb\t名詞,固有,基,*\nbc\t名詞,\"x,y\",*\nEOS\nb\t名詞,\"x,y\"\na,b\t名詞,一般,b2\nb\t名詞,\"x,y\"\nc\t助詞,\"x,y\"\nEOS\n犬\t名詞,\"x,y\",b2\na,b\t名詞,一般,b2\nab\t助詞,一般\nEOS\na,b\t名詞,一般,b2\na\t助詞,*,b2,*\nb\t名詞,固有,基,*\na\t助詞,*,b2,*\nEOS\na\t助詞,*,b2,*\nb\t名詞,\"x,y\"\nbc\t名詞,\"x,y\",*\nab\t助詞,一般\nEOS\nbc\t名詞,\"x,y\",*\nb\t名詞,固有,基,*\nbc\t名詞,\"x,y\",*\nEOS\n".into(),
+            user: "uz,0,0,0,名詞,\"x,y\",b2\nux0,1,1,16,動詞,固有\nuy1,0,0,0,動詞,*,*\nu猫猫2,1,1,-30,助詞,\"x,y\",基\nux3,1,1,43,助詞,\"x,y\",*\nuy4,1,1,-34,名詞,一般,*,イ\nu猫猫5,0,0,0,助詞,*,*,*\n".into(),
+            bigrams: vec![("B0:%L?[3]".into(), "r0:%R?[3]".into())], k: 1,
+        }, 6),
+        (Cfg {
+            virtual_tokens: true, bare_right: false,
+            lex: "c,0,0,0,助詞,*,*\na,0,0,0,名詞,*\n猫,0,0,0,名詞,\"x,y\",b2\nab,0,0,0,助詞,固有,基\n\"a,b\",0,0,0,助詞,一般,b2\n".into(),
+            chardef,
+            unk: "DEFAULT,0,0,0,動詞,固有,*,ア\nDEFAULT,0,0,0,助詞,一般,b2,*\nALPHA,0,0,0,助詞,\"x,y\"\nALPHA,0,0,0,動詞,固有,*\nKANJI,0,0,0,動詞,\"x,y\",基\n".into(),
+            feature_def: format!("{}BIGRAM B0:%L[1]/r0:%R[3]\nBIGRAM B1:%L[3],%L[0]/r1:%R[0]\n", uni),
+            rewrite_def: "[unigram rewrite]\n[left rewrite]\n名詞,一般,* $1,$2,*,*\n助詞,一般,*,* 体言,$2,*,$4\n[right rewrite]\n(名詞|動詞),固有,*,* $1,*,$3,*\n*,一般,* $1,$2,$3,*\n*,固有,* 体言,*,$3,*\n".into(),
+            corpus: "c\t助詞,*,*\na,b\t助詞,一般,b2\nab\t助詞,固有,基\na\t名詞,*\nEOS\na\t名詞,*\na,b\t助詞,一般,b2\n猫\t名詞,\"x,y\",b2\na\t名詞,*\nab\t助詞,固有,基\nEOS\nc\t助詞,*,*\na,b\t助詞,一般,b2\nEOS\nab\t助詞,固有,基\na\t名詞,*\nEOS\na,b\t助詞,一般,b2\nzq\t感動詞,未知1\nab\t助詞,固有,基\nEOS\na\t名詞,*\nzq\t感動詞,未知2\nab\t助詞,固有,基\nEOS\n".into(),
+            user: "uz,0,0,0,助詞,固有,基\nux0,1,1,42,名詞,*\nuy1,0,0,0,動詞,固有,基\nu猫猫2,0,0,0,名詞,*\nux3,1,1,-15,名詞,固有\nuy4,0,0,0,動詞,固有\n".into(),
+            bigrams: vec![("B0:%L[1]".into(), "r0:%R[3]".into()), ("B1:%L[3],%L[0]".into(), "r1:%R[0]".into())], k: 2,
+        }, 4),
+    ]
+}
+
 struct Files { lex: Vec<u8>, matrix: Vec<u8>, unk: Vec<u8>, user: Vec<u8>, left: Vec<u8>, right: Vec<u8>, cost: Vec<u8> }
 fn generate(m: &mut Model) -> Option<Files> {
     let mut f = Files { lex: vec![], matrix: vec![], unk: vec![], user: vec![], left: vec![], right: vec![], cost: vec![] };
@@ -161,11 +193,14 @@ pub fn run(prop: &str, seed: u64, n: usize, outdir: &str, _corpus: Option<&str>)
     let mut master = Rng::new(seed ^ 0x7A11);
     // VERIF_SUBSEED=<case seed> re-runs exactly one case and prints the connection costs that differ
     let only: Option<u64> = std::env::var("VERIF_SUBSEED").ok().and_then(|x| x.parse().ok());
-    for _ in 0..(if only.is_some() { 1 } else { n }) {
-        let sub = only.unwrap_or_else(|| master.next());
+    let mut pinned = if only.is_some() { vec![] } else { pinned_cfgs() };
+    pinned.reverse();
+    let npinned = pinned.len();
+    for round in 0..(if only.is_some() { 1 } else { n + npinned }) {
+        let pin = pinned.pop();
+        let sub = if pin.is_some() { 1000 + round as u64 } else { only.unwrap_or_else(|| master.next()) };
         let mut rng = Rng(sub);
-        let c = gen_cfg(&mut rng);
-        let iters = 2 + rng.below(5);
+        let (c, iters) = match pin { Some((c, it)) => (c, it), None => { let c = gen_cfg(&mut rng); let it = 2 + rng.below(5); (c, it) } };
         let human = format!("lex.csv={} unk.def={} feature.def={} rewrite.def={} corpus={} user.csv={} iters={}", json_str(&c.lex), json_str(&c.unk), json_str(&c.feature_def), json_str(&c.rewrite_def), json_str(&c.corpus), json_str(&c.user), iters);
         let mut flags: Vec<(String, u8)> = vec![];
         flags.push(("k3_bare_template".into(), c.bare_right as u8));
@@ -173,9 +208,32 @@ pub fn run(prop: &str, seed: u64, n: usize, outdir: &str, _corpus: Option<&str>)
         *dist.entry(format!("templates_{}", if c.k >= 8 { "ge8" } else { "lt8" })).or_default() += 1;
         if c.virtual_tokens { *dist.entry("corpus_with_uncovered_tokens".into()).or_default() += 1; }
         let maxabs_of = |m: &Model| -> f64 { m.verif_merged().map(|(sets, matrix)| sets.iter().map(|s| s.0.abs()).chain(matrix.iter().map(|x| x.2.abs())).fold(0f64, f64::max)).unwrap_or(0.0) };
-        let max_before = maxabs_of(&model);
         // ---- C15 part 1: generate from the in-memory model (before any user lexicon)
-        let f0 = match generate(&mut model) { Some(f) => f, None => { flags.push(("c14_generate".into(), 0)); continue; } };
+        // (a panic of the first generation is recorded as an observation: known-finding class K7 when the
+        // trained model has no bigram weight row at all)
+        let first = std::panic::catch_unwind(std::panic::AssertUnwindSafe(|| generate(&mut model)));
+        let f0 = match first {
+            Ok(Some(f)) => f,
+            other => {
+                // Err from the writers (Ok(None)) or a panic: the trained model could not be written out
+                let k7 = other.is_err() && model.verif_bigram_weight_rows() == 0;
+                flags.push(("k7_no_bigram_weights".into(), k7 as u8));
+                for f in ["c14_write_dictionary_succeeds", "c15_generate_succeeds", "c16_write_bigram_details_succeeds"] { flags.push((f.into(), 0)); }
+                *dist.entry(format!("first_generation_fails_panic_{}_k7_{}", other.is_err(), k7)).or_default() += 1;
+                let term = format!(
+                    "(Build_trncase {} {} {} {} [])",
+                    sub, clist(&flags, |(k, v)| format!("({}, {})", cstr(k), v)),
+                    clist(&c.bigrams, |(l, r)| format!("({}, {})", cstr(l), cstr(r))), cstr(&c.rewrite_def)
+                );
+                sh.push_h(format!("seed:{}", sub), term, human.clone());
+                continue;
+            }
+        };
+        let model_rows = model.verif_bigram_weight_rows();
+        // everything after the first generation runs under catch_unwind: a panic is an observation
+        let flags_before = flags.clone();
+        let rest = std::panic::catch_unwind(std::panic::AssertUnwindSafe(|| {
+        let max_before = maxabs_of(&model);
         let f0b = generate(&mut model).unwrap();
         flags.push(("c15_generate_twice".into(), same_files(&f0, &f0b) as u8));
         let mut mbytes = vec![];
@@ -325,6 +383,23 @@ pub fn run(prop: &str, seed: u64, n: usize, outdir: &str, _corpus: Option<&str>)
             clist(&c.bigrams, |(l, r)| format!("({}, {})", cstr(l), cstr(r))), cstr(&c.rewrite_def),
             clist(&[view(&f1), view(&g3)], |v| v.clone())
         );
+        term
+        }));
+        let term = match rest {
+            Ok(t) => t,
+            Err(_) => {
+                let mut flags = flags_before;
+                let k7 = model_rows == 0;
+                flags.push(("k7_no_bigram_weights".into(), k7 as u8));
+                for f in ["c14_write_dictionary_succeeds", "c15_generate_succeeds", "c16_write_bigram_details_succeeds"] { flags.push((f.into(), 0)); }
+                *dist.entry(format!("later_generation_panics_k7_{}", k7)).or_default() += 1;
+                format!(
+                    "(Build_trncase {} {} {} {} [])",
+                    sub, clist(&flags, |(k, v)| format!("({}, {})", cstr(k), v)),
+                    clist(&c.bigrams, |(l, r)| format!("({}, {})", cstr(l), cstr(r))), cstr(&c.rewrite_def)
+                )
+            }
+        };
         if sh.push_h(format!("seed:{}", sub), term, human.clone()) && samples.len() < 2 { samples.push(format!("{{\"case\":{}}}", json_str(&human))); }
     }
     let shards = sh.write(outdir, 12)?;
